@@ -56,7 +56,7 @@ func Kinds() []kubesim.KindInfo {
 		{GVK: GVKConfigMap, Namespaced: true},
 		{GVK: GVKSecret, Namespaced: true},
 		{GVK: GVKNamespace, Namespaced: false, HasStatus: true},
-		{GVK: GVKWidget, Namespaced: true, HasStatus: true, Generation: true},
+		{GVK: GVKWidget, Namespaced: true, HasStatus: true, Generation: true, OtherVersions: []string{"v1beta1"}},
 		{GVK: GVKClusterWidget, Namespaced: false, HasStatus: true, Generation: true},
 	}
 	for _, k := range []string{"ObjectSet", "ObjectSetPhase", "ObjectDeployment", "Package", "ObjectTemplate"} {
